@@ -26,17 +26,21 @@ fn vi_line(nw: &Network, v: VehicleIdx, t: &Tour) -> String {
 }
 
 pub fn dump_transition(t: &Transition, out: &mut String) {
-    writeln!(out, "TR {} {} {}", t.maintenance_violation(), t.maintenance_counter(), t.number_of_cycles()).unwrap();
+    dump_transition_tagged(t, ["TR", "CY", "LK", "EM"], out)
+}
+
+pub fn dump_transition_tagged(t: &Transition, tags: [&str; 4], out: &mut String) {
+    writeln!(out, "{} {} {} {}", tags[0], t.maintenance_violation(), t.maintenance_counter(), t.number_of_cycles()).unwrap();
     for (k, c) in t.cycles_iter().enumerate() {
         let v: Vec<String> = c.iter().map(vid).collect();
-        writeln!(out, "CY {} {} {} {}", k, c.maintenance_counter(), v.len(), v.join(" ")).unwrap();
+        writeln!(out, "{} {} {} {} {}", tags[1], k, c.maintenance_counter(), v.len(), v.join(" ")).unwrap();
     }
     let (mut lk, em) = t.verif_lookup_and_empties();
     lk.sort();
     let l: Vec<String> = lk.iter().map(|(v, k)| format!("{} {}", vid(*v), k)).collect();
-    writeln!(out, "LK {} {}", lk.len(), l.join(" ")).unwrap();
+    writeln!(out, "{} {} {}", tags[2], lk.len(), l.join(" ")).unwrap();
     let e: Vec<String> = em.iter().map(|k| format!("{}", k)).collect();
-    writeln!(out, "EM {} {}", em.len(), e.join(" ")).unwrap();
+    writeln!(out, "{} {} {}", tags[3], em.len(), e.join(" ")).unwrap();
 }
 
 pub fn run(case: &serde_json::Value, out: &mut String) {
@@ -70,6 +74,8 @@ pub fn run(case: &serde_json::Value, out: &mut String) {
     writeln!(out, "TOP init -> OK").unwrap();
     dump_transition(&t, out);
     let empty: im::HashMap<VehicleIdx, &Tour> = im::HashMap::new();
+    // the transition optimiser reads the tours of the schedule: comparable only while no tour has been replaced
+    let mut dirty = false;
     for (n, op) in case["tops"].as_array().unwrap().iter().enumerate() {
         let op = op.as_array().unwrap();
         let kind = op[0].as_str().unwrap();
@@ -121,6 +127,23 @@ pub fn run(case: &serde_json::Value, out: &mut String) {
                 let c = t.get_cycle(arg_n(1)).three_opt(arg_n(2), arg_n(3), arg_n(4), &tours, &nw);
                 Some((t.replace_cycle(arg_n(1), c), vec![]))
             }
+            // the whole transition optimisation (transition local search with the cycle TSP inside) started from the
+            // current transition; the accepted steps (hook) are printed as TS blocks before the result
+            "optimise" => {
+                if dirty {
+                    None
+                } else {
+                    use rapid_solve::heuristics::Solver;
+                    let _ = solver::verif_hooks::take_transitions();
+                    let opt = solver::transition_local_search::build_transition_local_search_solver(&s, nw.clone());
+                    let start = solver::transition_local_search::TransitionWithInfo::new(t.clone(), String::new());
+                    let res = opt.solve(start).unwrap().unwrap_transition();
+                    for (_, st) in solver::verif_hooks::take_transitions().iter() {
+                        dump_transition_tagged(st, ["TS", "CS", "LS", "ES"], out);
+                    }
+                    Some((res, vec![]))
+                }
+            }
             "succ" => {
                 let sv = t.get_successor_of(arg_v(1));
                 writeln!(out, "SUCC {} {}", vid(arg_v(1)), vid(sv)).unwrap();
@@ -134,6 +157,9 @@ pub fn run(case: &serde_json::Value, out: &mut String) {
             Ok(Some((t2, upd))) => {
                 writeln!(out, "{} -> OK", head).unwrap();
                 t = t2;
+                if !upd.is_empty() {
+                    dirty = true;
+                }
                 for (v, nt) in upd {
                     writeln!(out, "{}", vi_line(&nw, v, &nt)).unwrap();
                     tours.insert(v, nt);
